@@ -18,6 +18,8 @@ def nontrivial(engine, opline):
     if engine == 'block':
         # non-trivial: a transaction line that was admitted (not a begin/end line, not refused at admission)
         return bool(t) and t[0] in ('eth', 'cos')
+    if engine == 'geth':
+        return bool(t) and t[0] == 'msg'
     if engine == 'genesis':
         return bool(t) and t[0] == 'gen'
     if engine == 'reexec':
@@ -59,7 +61,8 @@ PROPS = {
                   'C04_supply', 'C04_sender_collector', 'C05_collector_gain', 'mintTo_effect', 'burnFrom_effect', 'sendCoins_bal',
                   'fact_balance_sites', 'fact_refund_mints', 'fact_refund_burnt_from_collector'],
         engines=[dict(name='block', test='TestEngineBlock', quick=500, thorough=6000, thorough_seeds=3),
-                 dict(name='statedb', test='TestEngineStatedb', quick=3000, thorough=60000, thorough_seeds=2)],
+                 dict(name='statedb', test='TestEngineStatedb', quick=3000, thorough=60000, thorough_seeds=2),
+                 dict(name='geth', test='TestEngineGeth', quick=300, thorough=4000, thorough_seeds=2, no_model=True)],
         rule=BLOCK_RULE, assumptions=BLOCK_ASSUME + ['bank keeps supply = sum of balances (x/bank invariant, trusted); per-tx supply and balance deltas are reconstructed from the bank events of each ExecTxResult'],
     ),
     'C05': dict(
@@ -221,6 +224,23 @@ PROPS['C18'] = dict(
     rule='per epoch a fresh chain is driven into a state with 1-4 contracts with random storage (zero-valued words, deleted slots), a storage-only address, a contract self-destructed through the EVM, optionally an ERC-20 precompile deployed after genesis, a staking precompile (optionally disabled), a whitelist, allowances (incl. unlimited), an ownership proof and a moved base fee; ExportAppStateAndValidators; a fresh Evermint InitChain-ed from the export; all observables of evm / feemarket / cpc / vauth compared, and each module exported again; non-trivial = every epoch line; distinct by op-line hash',
     assumptions=['only the four custom modules are compared (SDK modules are trusted)', 'EVM and fee-market parameter sets are compared as opaque marshalled blobs',
                  'the re-imported state is read from the InitChain (not yet committed) state of the fresh application'],
+)
+
+GETH_RULE = 'per epoch five contracts with generated programs (SSTORE/SLOAD on four slots incl. clearing, LOG0/1, CALL/STATICCALL/DELEGATECALL/CALLCODE with and without value to each other and to fresh addresses, three-call bursts with value to one target, CREATE/CREATE2 with storing, code-returning or reverting init code, SELFDESTRUCT to any target, REVERT, INVALID, BALANCE/EXTCODESIZE/EXTCODEHASH) and 12-24 messages (calls with value, plain transfers, creation transactions) executed through evermint ApplyMessage and through go-ethereum core.ApplyMessage on a state.StateDB seeded with the mirrored pre-state, same chain config and block context; compared after every message: error class, return data, gas used, logs, and nonce / balance / code / four storage slots of ~150 tracked addresses (universe, CREATE and CREATE2 targets); non-trivial = every message line; distinct by op-line hash'
+PROPS['C02'] = dict(
+    lean_modules=['Model.StateDB', 'Proofs.World', 'Properties.C02', 'Properties.C03', 'Facts.Geth', 'Facts.Block'],
+    facts=['*'],
+    theorems=['C02_setNonce_sim', 'C02_setCode_sim', 'C02_setState_sim', 'C02_addBalance_sim', 'C02_subBalance_sim',
+              'C02_diff_zero_credit_creates_nothing', 'C02_diff_storage_only_not_empty', 'C02_zero_address_warm', 'C03_revert_exact',
+              'nonceOf_ensureAcc', 'fact_fork_write_primitives', 'fact_fork_precompile_list_zero_prefixed', 'fact_refund_quotients', 'fact_refund_quotient'],
+    engines=[dict(name='geth', test='TestEngineGeth', quick=300, thorough=6000, thorough_seeds=3, no_model=True),
+             dict(name='statedb', test='TestEngineStatedb', quick=3000, thorough=60000, thorough_seeds=2)],
+    rule=GETH_RULE,
+    assumptions=['PARTIAL: the theorems cover the StateDB write primitives (simulation of a value-semantic reference) and snapshot/revert; that equal behaviour at the vm.StateDB interface gives equal executions rests on the interpreter being the same compiled code on both sides (trusted base item 5); the interpreter, gas tables and native precompiles are not modelled',
+                 'messages are zero-priced with the NoBaseFee switch on both sides (as eth_call does), so the permitted fee difference (no buyGas / coinbase payment in evermint) does not enter; fee handling is C04/C05',
+                 'accounts hold only the EVM denomination and are neither module nor vesting accounts (the documented design differences)',
+                 'custom precompile addresses are not called by the generated programs (permitted difference: callable and warm)'],
+    technique='Lean 4 simulation theorems (context StateDB vs value-semantic reference) + regenerated fork facts + differential execution against go-ethereum itself (core.ApplyMessage over state.StateDB)',
 )
 
 NOT_APPLICABLE = {}
